@@ -22,12 +22,13 @@ pub struct Mark { pub off: usize, pub len: usize, pub kind: MK }
 pub struct Deletable { pub off: usize, pub len: usize, pub err: &'static str, pub tok: &'static str, pub at_mark: Option<usize> /* index into `anchors` giving expected position */ }
 pub struct G<'a> { pub u: Src<'a>, pub out: String, pub marks: Vec<Mark>, pub dels: Vec<Deletable>, pub anchors: Vec<usize>, pub depth: usize, pub feats: Vec<&'static str>, pub in_macro: usize, pub str_regions: Vec<(usize, usize)>, pub last_int: bool, pub max_depth: usize, pub open_parens: usize, pub open_calls: usize, pub open_text: usize, pub force_nonword: bool, pub lenient: bool, pub in_stmt_expr: bool, pub trunc_points: Vec<(usize, usize, usize, usize)> }
 
-const IDENTS: &[&str] = &["a", "b", "x1", "_v", "abc", "var_2", "tbl", "col", "é1", "mylib", "Z"];
-const MNAMES: &[&str] = &["m", "mymac", "util_1", "_m", "doit", "M2"];
+// (names of 31 and 32 characters: 32 is the SAS limit and a valid name)
+const IDENTS: &[&str] = &["a", "b", "x1", "_v", "abc", "var_2", "tbl", "col", "é1", "mylib", "Z", "calc_rolling_std_for_all_numeric", "output_dataset_name_with_prefix"];
+const MNAMES: &[&str] = &["m", "mymac", "util_1", "_m", "doit", "M2", "calc_rolling_std_for_all_numeric", "output_dataset_name_with_prefix"];
 // names of *called* macros may contain non-ASCII letters (definitions stay ASCII, as the lexer documents)
 // (the last names have a macro keyword as a prefix: they are ordinary user macros)
-const CALLNAMES: &[&str] = &["m", "mymac", "util_1", "_m", "doit", "M2", "größe", "тест", "é", "m", "whilex", "until_v", "dox", "endx", "letx", "strx", "evalx", "thenx", "tox", "byx", "WHILE2", "mendy", "ifa", "putx"];
-const MVARS: &[&str] = &["v", "mv", "i", "n1", "_x", "lib", "Dsn", "é", "тест"];
+const CALLNAMES: &[&str] = &["m", "mymac", "util_1", "_m", "doit", "M2", "größe", "тест", "é", "m", "whilex", "until_v", "dox", "endx", "letx", "strx", "evalx", "thenx", "tox", "byx", "WHILE2", "mendy", "ifa", "putx", "calc_rolling_std_for_all_numeric"];
+const MVARS: &[&str] = &["v", "mv", "i", "n1", "_x", "lib", "Dsn", "é", "тест", "calc_rolling_std_for_all_numeric"];
 const OPEN_KW: &[&str] = &["data", "set", "run", "proc", "if", "then", "else", "do", "end", "by", "where", "select", "from", "output", "keep", "format", "input", "put", "length", "_null_", "and", "or", "not", "in", "eq", "ne"];
 const OPEN_SYM: &[&str] = &["=", "+", "-", "/", "<", ">", "<=", ">=", "^=", "~=", "||", "|", "!!", ",", ".", ":", "@", "#", "?", "**", "<>", "><", "=*", "{", "}", "[", "]", "&", "&&", "%", "$", "¬", "¬=", "!", "¦", "¦¦", "∘", "^"];
 const WORDS: &[&str] = &["a", "abc", "x1", "some", "text", "v_1", "é", "data", "q2"];
@@ -341,7 +342,7 @@ impl<'a> G<'a> {
                 3 => { self.feat("str-pct-quote"); let q = self.pick(&["%'", "%\"", "%%", "%(", "%)"]); self.p(q); }
                 4 => { self.mark(",", MK::Masked); }
                 5 => { self.mark(";", MK::Masked); }
-                6 => { self.gopen(); self.p("in"); self.tp(); self.mark(",", MK::Masked); self.p("ner"); self.tp(); self.gclose(); }
+                6 => { self.gopen(); if !nr && self.u.coin(1, 3) { self.feat("call-inside-str-group"); self.d_inc(); self.user_call(2); self.depth -= 1; if !self.out.ends_with(')') { self.p(" w"); } } else { self.p("in"); } self.tp(); self.mark(",", MK::Masked); self.p("ner"); self.tp(); self.gclose(); }
                 7 => { if nr { self.p("&amp %mac"); } else { self.mvar(true); } }
                 8 => { self.feat("str-inner-tokens"); match self.u.below(6) { 0 => self.p("'q;' "), 1 => self.p("\"r,\" "), 2 => self.p("/"), 3 => self.p("/*c,)*/"), 4 => self.p("\n"), _ => { if nr { self.p("%"); self.p(" "); } else { self.d_inc(); self.user_call(2); self.depth -= 1; if !self.out.ends_with(')') { self.p(" w"); } } } } }
                 9 if !nr && self.u.coin(1, 3) => { self.feat("stat-in-str"); self.d_inc(); if self.u.coin(1, 2) { self.str_with_stat(); } else if self.u.coin(1, 2) { self.let_stmt(); } else { self.put_stmt(); } self.depth -= 1; }
@@ -478,7 +479,7 @@ impl<'a> G<'a> {
     }
     fn macro_def(&mut self) {
         self.feat("macro-def"); self.pk("%macro"); self.rws(); let nm = self.pick(MNAMES); self.p(nm);
-        if self.u.coin(2, 3) { self.ows(); self.mark("(", MK::Delim("LPAREN", false)); let n = self.u.below(4); for i in 0..n { if i > 0 { self.mark(",", MK::Delim("COMMA", false)); } self.ows(); let a = self.pick(&["p1", "arg", "_k", "ds"]); self.p(a); self.ows(); if self.u.coin(1, 2) { self.feat("def-default"); self.mark("=", MK::Delim("ASSIGN", false)); self.ows(); if self.u.coin(2, 3) { self.arg_value(true); } } } if n == 0 { self.ows(); } self.mark(")", MK::Delim("RPAREN", false)); }
+        if self.u.coin(2, 3) { self.ows(); self.mark("(", MK::Delim("LPAREN", false)); let n = self.u.below(4); for i in 0..n { if i > 0 { self.mark(",", MK::Delim("COMMA", false)); } self.ows(); let a = self.pick(&["p1", "arg", "_k", "ds", "calc_rolling_std_for_all_numeric", "output_dataset_name_with_prefix"]); self.p(a); self.ows(); if self.u.coin(1, 2) { self.feat("def-default"); self.mark("=", MK::Delim("ASSIGN", false)); self.ows(); if self.u.coin(2, 3) { self.arg_value(true); } } } if n == 0 { self.ows(); } self.mark(")", MK::Delim("RPAREN", false)); }
         if self.u.coin(1, 3) { self.ows(); let o = self.pick(&["/ des='x' minoperator", "/ store source", "/ parmbuff", "/ minoperator mindelimiter=','", "/ DES=\"a;b\" secure", "/store", "/ des='it''s'"]); self.p(o); }
         self.ows(); self.mark(";", MK::Delim("SEMI", false));
         self.in_macro += 1; self.body(); self.in_macro -= 1;
